@@ -143,8 +143,12 @@ func (dec *Decoder) Decode() (*Document, error) {
 		if indent-1 >= len(indents) {
 			// This means the file is not valid. I have seen it in very rare
 			// cases. See full explanation in AllowInvalidIndents.
-			if dec.AllowInvalidIndents {
+			if dec.AllowInvalidIndents && len(indents) > 0 {
 				indent = len(indents)
+			} else if dec.AllowInvalidIndents {
+				// There is no node at all that it could be attached to.
+				return nil, fmt.Errorf("line %d: no parent for: %s",
+					lineNumber, line)
 			} else {
 				panic(fmt.Sprintf(
 					"indent is too large - missing parent? at line %d: %s",
